@@ -17,12 +17,12 @@ import (
 
 func init() {
 	seqChecks["c08"] = &seqCheck{run: runC08, replay: replayC08,
-		rule: "every sequence of <=3 (4 thorough) event calls over 13 actions x apply handler {absent, ok, error, no-change} x listeners {none, same pattern, other handler's Listeners map, mounted mux, two listeners} x type {model, collection, unset} x context {call handler, With callback}; one global log fed by apply handlers, connection and listeners is compared with the reference log; distinct = distinct (case, log) pairs"}
+		rule: "every sequence of <=3 (4 thorough) event calls over 13 actions x apply handler {absent, ok, error, no-change} x listeners {none, same pattern, other handler's Listeners map with one or three entries, mounted mux, two listeners, a listener emitting a nested event} x type {model, collection, unset} x context {call handler, With callback}; one global log fed by apply handlers, connection and listeners is compared with the reference log; distinct = distinct (case, log) pairs"}
 }
 
 var c08Actions = []string{"change", "changeEmpty", "add0", "addNeg", "remove0", "removeNeg", "create", "delete", "custom", "evChange", "evDotted", "timeout", "reply"}
 var c08Apply = []string{"absent", "ok", "error", "nochange"}
-var c08Lis = []string{"none", "same", "other", "mounted", "two", "nested"}
+var c08Lis = []string{"none", "same", "other", "othermap", "mounted", "two", "nested"}
 var c08Types = []string{"model", "collection", "unset"}
 
 type c08Case struct {
@@ -54,7 +54,7 @@ func jsonOf(v interface{}) string {
 // c08Reference computes the expected global log.
 func c08Reference(c c08Case, rname string) []string {
 	var log []string
-	nlis := map[string]int{"none": 0, "same": 1, "other": 1, "mounted": 1, "two": 2, "nested": 2}[c.Lis]
+	nlis := map[string]int{"none": 0, "same": 1, "other": 1, "othermap": 1, "mounted": 1, "two": 2, "nested": 2}[c.Lis]
 	ev := "event." + rname + "."
 	listeners := func(desc string) {
 		for i := 0; i < nlis; i++ {
@@ -332,6 +332,16 @@ func c08Run(c c08Case) (log []string, rname string, problems []string) {
 			s.Handle("other", res.GetModel(func(r res.ModelRequest) { r.NotFound() }), res.OptionFunc(func(h *res.Handler) {
 				h.Listeners = map[string]func(*res.Event){"r": lis(0)}
 			}))
+		case "othermap":
+			// another handler's Listeners map with several entries: only the one registered for r may run
+			s.Handle("r", opts...)
+			wrong := func(tag string) func(*res.Event) {
+				return func(e *res.Event) { log = append(log, "listener-of-"+tag+" called for "+e.Resource.ResourceName()) }
+			}
+			s.Handle("other", res.GetModel(func(r res.ModelRequest) { r.NotFound() }), res.OptionFunc(func(h *res.Handler) {
+				h.Listeners = map[string]func(*res.Event){"r": lis(0), "other": wrong("other"), "other2": wrong("other2")}
+			}))
+			s.Handle("other2", res.GetModel(func(r res.ModelRequest) { r.NotFound() }))
 		case "same":
 			s.Handle("r", opts...)
 			s.AddListener("r", lis(0))
@@ -428,7 +438,7 @@ func runC08(c *seqCtx) {
 			for _, ty := range c08Types {
 				for _, ctx := range []string{"call", "with"} {
 					for _, sc := range scripts {
-						if len(sc) == maxLen && !c.thorough && (li == "other" || li == "mounted" || li == "nested") && len(sc) > 2 {
+						if len(sc) == maxLen && !c.thorough && (li == "other" || li == "othermap" || li == "mounted" || li == "nested") && len(sc) > 2 {
 							continue // quick: the two indirect listener placements only up to length 2
 						}
 						if !c.Mine() {
